@@ -175,6 +175,13 @@ def errJ : Err → Json
   | .body a => Json.mkObj [("dict", "body"), ("attr", jstr a)]
   | .action a => Json.mkObj [("dict", "action"), ("attr", jstr a)]
 
+/-- every row whose element is not emitted (reporting only: the implementation raises for the first one in its own
+    generation order — binds, then actions, then the body) -/
+def allOffenders : List Cells → List (Nat × Bool × RowK) → List (Nat × Err)
+  | r :: rs, (n, fl, k) :: ks =>
+    (match rowCheck r fl k with | some e => [(n, e)] | none => []) ++ allOffenders rs ks
+  | _, _ => []
+
 def rowName (rows : List Cells) (n : Nat) : Str :=
   match rows[n - 2]? with
   | some r => (get r "name").getD []
@@ -189,7 +196,12 @@ def attrsModel (root : Str) (lists : List Str) (rows : List Cells) (settings : C
   | .error (.form (.err e)) => Json.mkObj [("outcome", "error"), ("err", Json.str (reprStr e))]
   | .error (.form (.unknownType n)) => Json.mkObj [("outcome", "error"), ("err", Json.str s!"unknownType {n}")]
   | .error (.attr n e) =>
-    Json.mkObj [("outcome", "attr"), ("row", Json.num n), ("name", jstr (rowName rows n)), ("err", errJ e)]
+    let rows0 := rows.map dropAttrs
+    let offs := match classifyAll lists 2 (rows0.map dropFlat) with
+      | .ok ks => allOffenders rows (flagRows rows0 ks)
+      | .error _ => []
+    Json.mkObj [("outcome", "attr"), ("row", Json.num n), ("name", jstr (rowName rows n)), ("err", errJ e),
+      ("offenders", Json.arr (offs.map fun ne => Json.mkObj [("name", jstr (rowName rows ne.1)), ("err", errJ ne.2)]).toArray)]
   | .ok o =>
     Json.mkObj [("outcome", "ok"), ("instance", ntJ o.inst), ("binds", pj o.binds), ("body", pj o.body),
       ("closed", Json.bool ((o.binds ++ o.body).all (resolves o.inst)))]
